@@ -21,7 +21,7 @@ pub struct Zhong {
 
 pub fn build_zhong(ctx: &Ctx, ylo: isize, yhi: isize) -> Zhong {
   let out: Mutex<Vec<(usize, [i64; 12])>> = Mutex::new(Vec::new());
-  par_chunks(ctx, ylo as usize, yhi as usize + 1, 50, |a, b, _| {
+  par_chunks_all(ctx, ylo as usize, yhi as usize + 1, 50, |a, b, _| {
     let mut loc = Vec::new();
     for y in a..b {
       let mut z = [0i64; 12];
